@@ -146,9 +146,7 @@ Returns the encoding, the state (2 06 is consumed) and an error flag (reference 
 def applyNumeric (ddo : DDO) (n : Node) (e : Enc) : Enc Ã— DDO Ã— Bool :=
   if ddo.useIeee > 0 then ({ e with type := .ieee, nbits := ddo.useIeee }, ddo, false)
   else if ddo.changeRefValOp > 0 then
-    if !n.hasVal then
-      ({ type := .chngRef, ref := 0, scale := 0, afNbits := 0, nbits := ddo.changeRefValOp }, ddo, false)
-    else (e, ddo, false)
+    ({ type := .chngRef, ref := 0, scale := 0, afNbits := 0, nbits := ddo.changeRefValOp }, ddo, false)
   else
     let (e1, ddo1) :=
       if ddo.localNbitsFollows > 0 then
@@ -174,7 +172,8 @@ def applyTables2node (T : Tables) (edition : Nat) (ddo : DDO) (n : Node) : DDO Ã
   let e0 := reassign n.desc (baseEnc T ddo n.desc)
   -- operators
   let (ddo1, e1, err1) :=
-    if f = 2 then
+    -- an operator flagged SKIPPED sits in a replication that occurs zero times: no effect
+    if f = 2 âˆ§ !n.flags.skipped then
       let r := resolveTableC ddo x y edition
       let e := match r.enc with
         | some (t, nb) => { e0 with type := t, nbits := nb }
